@@ -470,9 +470,13 @@ func c08ModuleText(r *rng) (src string, enc []string, kinds []byte, named []bool
 		if named[i] {
 			nm = fmt.Sprintf("@m%d", i)
 		} else {
-			if kinds[i] == 'G' {
-				// a use of the unnamed global by its number: it must bind the global initialised with i
+			// a use of the unnamed entity by its number: it must bind the i-th entity of the text (checked by kind
+			// and, for global variables, by the initialiser i)
+			switch kinds[i] {
+			case 'G', 'A':
 				refs = append(refs, fmt.Sprintf("@ref%d = global i32* @%d\n", i, id))
+			default:
+				refs = append(refs, fmt.Sprintf("@ref%d = global void ()* @%d\n", i, id))
 			}
 			id++
 		}
@@ -506,15 +510,30 @@ func c08Module(c *config, r *rng, sample bool) {
 		if err != nil {
 			return err
 		}
-		// every @ref<i> holds the address of the unnamed global that was initialised with i
+		// every @ref<i> holds the address of the i-th entity of the text: of its kind, and for a global variable
+		// the one that was initialised with i
 		for _, g := range m.Globals {
 			var i int64
-			if n, _ := fmt.Sscanf(g.Name(), "ref%d", &i); n == 1 {
-				tgt, ok := g.Init.(*ir.Global)
-				if !ok {
-					misbound = g.Name() + " is not bound to a global variable"
-				} else if ci, ok := tgt.Init.(*constant.Int); !ok || ci.X.Int64() != i {
-					misbound = fmt.Sprintf("%s is bound to %s, not to the unnamed global initialised with %d", g.Name(), tgt.LLString(), i)
+			if n, _ := fmt.Sscanf(g.Name(), "ref%d", &i); n == 1 && int(i) < len(kinds) {
+				switch tgt := g.Init.(type) {
+				case *ir.Global:
+					if ci, ok := tgt.Init.(*constant.Int); kinds[i] != 'G' || !ok || ci.X.Int64() != i {
+						misbound = fmt.Sprintf("%s is bound to %s, not to entity %d of the text (kind %c)", g.Name(), tgt.LLString(), i, kinds[i])
+					}
+				case *ir.Alias:
+					if kinds[i] != 'A' {
+						misbound = fmt.Sprintf("%s is bound to an alias, entity %d of the text is of kind %c", g.Name(), i, kinds[i])
+					}
+				case *ir.IFunc:
+					if kinds[i] != 'I' {
+						misbound = fmt.Sprintf("%s is bound to an ifunc, entity %d of the text is of kind %c", g.Name(), i, kinds[i])
+					}
+				case *ir.Func:
+					if kinds[i] != 'F' {
+						misbound = fmt.Sprintf("%s is bound to a function, entity %d of the text is of kind %c", g.Name(), i, kinds[i])
+					}
+				default:
+					misbound = fmt.Sprintf("%s is bound to a %T", g.Name(), g.Init)
 				}
 			}
 		}
